@@ -52,6 +52,12 @@ def current_command(cmd):
     return deco
 
 
+def _refused(reply, expected='2'):
+    # Anything but a reply of the expected class is a refusal: a 354 in
+    # answer to RCPT or a 150 after the message data accepts nothing.
+    return not (reply.code or '').startswith(expected)
+
+
 class SmtpRelayClient(RelayPoolClient):
 
     _client_class = Client
@@ -167,7 +173,7 @@ class SmtpRelayClient(RelayPoolClient):
         assert self.client is not None
         with Timeout(self.command_timeout):
             mailfrom = self.client.mailfrom(sender, auth=False)
-        if mailfrom and mailfrom.is_error():
+        if mailfrom and _refused(mailfrom):
             raise SmtpRelayError.factory(mailfrom)
         return mailfrom
 
@@ -184,10 +190,10 @@ class SmtpRelayClient(RelayPoolClient):
             return self.client.data()
 
     def _check_replies(self, mailfrom, rcpttos, data):
-        if mailfrom.is_error():
+        if _refused(mailfrom):
             raise SmtpRelayError.factory(mailfrom)
         for rcptto in rcpttos:
-            if not rcptto.is_error():
+            if not _refused(rcptto):
                 break
         else:
             # Every recipient was refused. The one reply reported for the
@@ -197,7 +203,7 @@ class SmtpRelayClient(RelayPoolClient):
                 if rcptto.code.startswith('4'):
                     raise SmtpRelayError.factory(rcptto)
             raise SmtpRelayError.factory(rcpttos[0])
-        if data.is_error():
+        if _refused(data, ('2', '3')):
             raise SmtpRelayError.factory(data)
 
     @current_command(b'[SEND_DATA]')
@@ -214,7 +220,7 @@ class SmtpRelayClient(RelayPoolClient):
             send_data = self.client.send_data(
                 header_data, message_data)
             self.client._flush_pipeline()
-        if isinstance(send_data, Reply) and send_data.is_error():
+        if isinstance(send_data, Reply) and _refused(send_data):
             raise SmtpRelayError.factory(send_data)
         return send_data
 
@@ -241,12 +247,12 @@ class SmtpRelayClient(RelayPoolClient):
             data = self._data()
             self._check_replies(mailfrom, rcpttos, data)
         except SmtpRelayError:
-            if data and not data.is_error():
+            if data and not _refused(data, ('2', '3')):
                 self._send_empty_data()
             raise
         for i, rcpt_reply in enumerate(rcpttos):
             rcpt = envelope.recipients[i]
-            if rcpt_reply.is_error():
+            if _refused(rcpt_reply):
                 rcpt_results[rcpt] = SmtpRelayError.factory(rcpt_reply)
 
     def _deliver(self, result, envelope):
